@@ -75,8 +75,9 @@ enum class perms : unsigned {
 
 inline bool is_symlink(uint32_t mode)
 {
+    constexpr uint32_t file_type_mask = 0170000;
     constexpr uint32_t symlink_mode = 0120000;
-    return (mode & symlink_mode) == symlink_mode;
+    return (mode & file_type_mask) == symlink_mode;
 }
 
 inline perms operator&(perms left, perms right)
